@@ -50,10 +50,19 @@ def clone(n):
     return n
 
 
-_KNOWN: dict[str, set[str]] | None = None
+_KNOWN: dict[str, dict[str, str]] | None = None
 
 
-def known_functions() -> dict[str, set[str]]:
+def body_digest(fn: ast.AST) -> str:
+    """digest of a function's body without its docstring (names of the function itself and positions do not matter)"""
+    import hashlib
+
+    body = [b for b in fn.body if not (isinstance(b, ast.Expr) and isinstance(b.value, ast.Constant) and isinstance(b.value.value, str))]  # type: ignore[attr-defined]
+    txt = ast.dump(ast.Module(body=body, type_ignores=[]), include_attributes=False) + ast.dump(fn.args, include_attributes=False)  # type: ignore[attr-defined]
+    return hashlib.sha1(txt.encode("utf-8")).hexdigest()[:16]
+
+
+def known_functions() -> dict[str, dict[str, str]]:
     """module name -> qualified names of the functions that existed when the rules were confirmed (tools/mkknown.py)"""
     global _KNOWN
     if _KNOWN is None:
@@ -63,7 +72,7 @@ def known_functions() -> dict[str, set[str]]:
         path = os.path.join(os.path.dirname(os.path.abspath(__file__)), "known_functions.json")
         try:
             with open(path, encoding="utf-8") as fh:
-                _KNOWN = {k: set(v) for k, v in json.load(fh).items()}
+                _KNOWN = {k: (dict(v) if isinstance(v, dict) else {q: "" for q in v}) for k, v in json.load(fh).items()}
         except OSError:
             _KNOWN = {}
     return _KNOWN
